@@ -144,6 +144,11 @@ fn queries_case<K: Kern<D>, const D: usize>(cx: &mut Ctx, r: &mut Rng, idx: usiz
     if !op_locate_batch(&mut cx.tr, 0, &dt, &qs, &hints) {
         return;
     }
+    // the Bowyer-Watson building blocks on the same queries
+    let cq: Vec<Vec<i64>> = qs.iter().take(if cx.thorough { 150 } else { 50 }).cloned().collect();
+    if !op_conflict_batch(&mut cx.tr, 0, &dt, &cq) {
+        return;
+    }
     // C11: hull creation, queries, then one mutating op of each kind followed by queries
     let Some(hull) = op_hull_create(&mut cx.tr, 0, &dt) else { return };
     let hq: Vec<Vec<i64>> = qs.iter().take(if cx.thorough { 120 } else { 40 }).cloned().collect();
